@@ -18,6 +18,7 @@ C(o, c, k)   == [op |-> "Construct", obj |-> o, cls |-> c, cfg |-> k, dict |-> o
 K(o, v, t)   == [op |-> "Call", obj |-> o, variant |-> v, t |-> t]
 S(o)         == [op |-> "Solve", obj |-> o]
 T(o, x)      == [op |-> "SetTol", obj |-> o, tol |-> x]
+Qy(o, q)     == [op |-> "Query", obj |-> o, q |-> q]
 
 Plans ==
      {<<C(1, c, k), K(1, "full", 1), K(1, "full", 2), K(1, "perm", 1), K(1, "full", 1)>> : c \in Classes, k \in Cfgs}
@@ -28,13 +29,16 @@ Plans ==
 \cup {<<C(1, c, 1), T(1, 2), S(1), C(2, c, 2), T(2, 1), S(2), K(1, "full", 1), K(2, "full", 1), S(1), K(1, "full", 2)>> :
          c \in {x \in Classes : Kind[x] = "bbox"}}
 
+QueryPlans == {<<C(1, c, k), Qy(1, 1), K(1, "full", 1), Qy(1, 2), K(1, "full", 1)>> : c \in Classes, k \in Cfgs}
+
 Apply(e) ==
   CASE e.op = "Construct" -> Construct(e.obj, e.cls, e.cfg, e.dict)
     [] e.op = "Call"      -> Call(e.obj, e.variant, e.t)
     [] e.op = "Solve"     -> Solve(e.obj)
     [] e.op = "SetTol"    -> SetTol(e.obj, e.tol)
+    [] e.op = "Query"     -> Query(e.obj, e.q)
 
-PInit == Init /\ plan \in Plans /\ pos = 1
+PInit == Init /\ plan \in Plans \cup QueryPlans /\ pos = 1
 PNext == pos <= Len(plan) /\ Apply(plan[pos]) /\ pos' = pos + 1 /\ UNCHANGED plan
 PSpec == PInit /\ [][PNext]_tvars
 PEmit == IF pos = Len(plan) + 1 THEN PrintT(ToJson([behaviour |-> hist])) ELSE TRUE
